@@ -136,11 +136,17 @@ class Ctx:
 
 
 def load_known_findings():
-    p = os.path.join(VERIF, "known_findings.json")
-    if not os.path.exists(p):
-        return []
-    with open(p) as f:
-        return json.load(f).get("findings", [])
+    """known_findings.json plus fragments known_findings.d/*.json (same format), all committed."""
+    out = []
+    paths = [os.path.join(VERIF, "known_findings.json")]
+    d = os.path.join(VERIF, "known_findings.d")
+    if os.path.isdir(d):
+        paths += sorted(os.path.join(d, f) for f in os.listdir(d) if f.endswith(".json"))
+    for p in paths:
+        if os.path.exists(p):
+            with open(p) as f:
+                out += json.load(f).get("findings", [])
+    return out
 
 
 # ---------------------------------------------------------------------------
@@ -164,7 +170,7 @@ _RE_BEH = re.compile(r'^<<"BEH", (".*")>>$')
 
 
 def run_tlc(ctx, spec, cfg, name=None, workers=8, timeout=600, simulate=None, depth=None,
-            extra=(), heap="8g", deque=False, cfg_text=None, defines=None, expect_violation=False):
+            extra=(), heap="6g", deque=False, cfg_text=None, defines=None, expect_violation=False):
     """Run TLC. Returns dict with distinct, generated, complete, violated (invariant/property/
     postcondition name or None), out (stdout text), behaviours (parsed BEH lines)."""
     name = name or (spec + "." + cfg)
